@@ -399,9 +399,13 @@ class Model:
         if name in ("pause", "play"):
           # ghost bookkeeping for the wait=True environment assumption (is a player left paused by the user?)
           g = prog.new()
-          val = z3.BoolVal(name == "pause")
-          prog.add(g, TRUE, lambda s, tgt=tgt, val=val: self._upd(s, tgt, "paused_by_user", val), lambda s, e=entry: IV(e),
-                   None, "user calls %s()" % name, kind="local")
+          # a pause() issued to a player that was already told to stop does not count: a stopping player has no audio
+          # left to wait for, so close(wait=True) must still return
+          if name == "pause":
+            eff = lambda s, tgt=tgt: self._upd(s, tgt, "paused_by_user", z3.Not(self.fget(s, tgt, "halting")))
+          else:
+            eff = lambda s, tgt=tgt: self._upd(s, tgt, "paused_by_user", z3.BoolVal(False))
+          prog.add(g, TRUE, eff, lambda s, e=entry: IV(e), None, "user calls %s()" % name, kind="other")
           entry = g
         opts[opcode[name]] = entry
       sel = prog.new()
